@@ -8,3 +8,5 @@ import AiutiVerif.Gather.Props
 import AiutiVerif.Gather.Drive
 import AiutiVerif.Batcher.Model
 import AiutiVerif.Batcher.Drive
+import AiutiVerif.Batcher.Props
+import AiutiVerif.Decorators.Props
